@@ -6,10 +6,13 @@ CHECK = {'level': 'model_checking',
          'every multiset of 2 (thorough: 3) concurrent requests from {unwrap as client token, third-party unwrap, '
          'rewrap, lookup, revoke-by-accessor, direct cubbyhole read, misuse on another path}; stateless DFS over all '
          'interleavings at storage-operation granularity up to the preemption bound, followed by a sequential tail of '
-         'repeated attempts on the original and every rewrapped token; non-trivial = distinct (scenario, outcome)',
+         'repeated attempts on the original and every rewrapped token; E: expiry of the token after each prefix of '
+         'lookup / rewrap calls x 3 wrap kinds; non-trivial = distinct (scenario, outcome)',
  'assumptions': ['a disclosure is a successful response containing the payload canary (for wrapped logins: a client '
                  'token)',
-                 'TTL expiry of wrapping tokens is not explored in this check (needs a clock seam); see DESIGN.md'],
+                 'TTL expiry is an explicit event: the stored lease times are moved into the past through sys/raw, the node '
+                 'restarts and the harness revokes what is due (no virtual clock); part E enumerates every prefix of '
+                 'non-consuming calls before that event for all three wrap kinds'],
  'units': [{'name': 'core',
             'pkg': './internal/verifh/core',
             'run': '^TestVerifC18$',
@@ -36,5 +39,5 @@ META = {'engines': 'E0 E1 E2',
          "records gone afterwards, lookup must report the creating path and the token must be refused elsewhere. 'At "
          "most once' under concurrency is decided by the order of the use-count decrement against lookups, exactly "
          'what schedule enumeration covers.',
- 'note': 'Trusted: scheduler shim, canary-based disclosure detection. Not covered: TTL expiry of the wrapping token, '
-         'control-group wrapping.'}
+ 'note': 'Trusted: scheduler shim, canary-based disclosure detection. Not covered: control-group wrapping, '
+         'expiry racing a request (expiry is explored as a sequential event only).'}
